@@ -259,12 +259,22 @@ impl Rollback {
 
         // NOTE: for now, if there is a pending truncate, we ignore everything else.
         if let Some(pending_truncate) = pending_truncate {
-            let rollback_start_live = std::cmp::min(seglog.live_range().0 .0, pending_truncate);
+            // If the truncation removed every delta, the log is empty, which is denoted by the
+            // nil range. `pending_truncate` would then name the record before the first live
+            // one, which was pruned earlier and may no longer exist on disk.
+            let (rollback_start_live, rollback_end_live) = if in_memory.log.is_empty() {
+                (0, 0)
+            } else {
+                (
+                    std::cmp::min(seglog.live_range().0 .0, pending_truncate),
+                    pending_truncate,
+                )
+            };
             return WriteoutData {
                 rollback_start_live,
-                rollback_end_live: pending_truncate,
+                rollback_end_live,
                 prune_to_new_start_live: None,
-                prune_to_new_end_live: Some(pending_truncate),
+                prune_to_new_end_live: Some(rollback_end_live),
             };
         }
 
